@@ -3,6 +3,7 @@ from __future__ import annotations
 
 from .harness import Explorer
 from .rules import part, wrappers, pent, sysz, mcsops, cnf, enum, cinf, preocf
+from .rules import parser as parser_rules
 
 
 def _class_of(table, key):
@@ -354,6 +355,17 @@ def C20(rep, prog, tier):
     preocf.format_agree(rep, ex)
 
 
+def C10(rep, prog, tier):
+    rep.explanation = ("C10: GRAM.precedence / GRAM.tokens / LEX.skip read from CKB.g4 and from the generated parser (and their "
+                       "agreement), VISIT.meaning (truth tables of what each visitor method builds), VISIT.keys, REJECT.listeners "
+                       "(must-precede), REJECT.eof. The ANTLR runtime and the file-or-string heuristic are not decided")
+    ex = Explorer(prog, rep)
+    g, lit = parser_rules.grammar_rules(rep, ex)
+    parser_rules.generated_parser(rep, ex, lit)
+    parser_rules.visitor_meaning(rep, ex)
+    parser_rules.reject(rep, ex, g)
+
+
 def C06(rep, prog, tier):
     rep.explanation = ("C06: tolerance-partition obligations PART.* on consistency/consistency_indices (scope of every "
                        "satisfiability test, split, balance, terminal decisions, advance, siblings); diagnostics flags; refusal")
@@ -365,4 +377,4 @@ def C06(rep, prog, tier):
     wrappers.shortcut_dominance(rep, ex)
 
 
-CHECKS = {"C01": C01, "C02": C02, "C03": C03, "C04": C04, "C05": C05, "C06": C06, "C07": C07, "C09": C09, "C11": C11, "C12": C12, "C13": C13, "C14": C14, "C16": C16, "C17": C17, "C18": C18, "C20": C20, "C15": C15}
+CHECKS = {"C01": C01, "C02": C02, "C03": C03, "C04": C04, "C05": C05, "C06": C06, "C07": C07, "C09": C09, "C10": C10, "C11": C11, "C12": C12, "C13": C13, "C14": C14, "C16": C16, "C17": C17, "C18": C18, "C20": C20, "C15": C15}
